@@ -6,7 +6,9 @@
     [rose_eqb] compares shape, child order, names, comments and numbers up to Qeq. *)
 From Coq Require Import String Ascii ZArith QArith Bool Arith List.
 From GT Require Import Base.UTree Spec.NewickSpec Model.MultiTree Model.Nexus Model.Clade
-     Proofs.MultiTree Proofs.MultiTreeSkip Proofs.NexusRoundExamples Proofs.NexusTotal Proofs.NexusFirst Proofs.Clade.
+     Proofs.MultiTree Proofs.MultiTreeSkip Proofs.MultiTreeSpec Proofs.NexusRoundExamples Proofs.NexusTotal Proofs.NexusFirst Proofs.Clade
+     Model.Newick Model.NewickNum Proofs.NewickCanon Proofs.NewickNumC Proofs.NexusWords Proofs.NexusRoundTrip Proofs.NexusRoundTripMain
+     Proofs.NexusRoundTripC01 Proofs.NexusRoundTripTr Proofs.NexusRoundTripExample Proofs.NewickFirst Proofs.NexusRename.
 Import ListNotations.
 Local Close Scope Q_scope.
 Local Open Scope string_scope.
@@ -121,3 +123,144 @@ Print Assumptions C13_nexus_round_trip_differing_taxa_refuted.
 Theorem C13_tree_nexus_round_trip_example : read_back (tree_nexus wC t_cab) = inl [wC t_cab].
 Proof. exact tree_nexus_round_trip. Qed.
 Print Assumptions C13_tree_nexus_round_trip_example.
+
+(** * the multi-Newick reader, as a function of the physical lines of the file (lines that fit
+    bufio's 4096-byte buffer): lines are concatenated up to and including the first one after
+    which the buffer ends with ';' (trailing blanks ignored); each chunk goes to the
+    single-tree parser, which delivers at most one tree; an empty stream of chunks is the
+    error record "EOF"; text after the last closing line is dropped *)
+Theorem C13_newick_stream_spec :
+  forall (np : string -> utree + string) lines,
+    read_multi np (whole_lines lines) =
+    MDone (match split_lines "" lines with
+           | [] => [MultiTree.IErr 0 "EOF"]
+           | cs => deliver np 0 cs
+           end).
+Proof. exact read_multi_lines. Qed.
+Print Assumptions C13_newick_stream_spec.
+
+(** [ends_semi]: the last byte that is not a blank or a tab is ';' *)
+Theorem C13_ends_semi_meaning : forall s c bl,
+    is_blank c = false -> all_blank bl = true -> ends_semi (s ++ String c bl) = is_semi c.
+Proof. exact ends_semi_last_nonblank. Qed.
+Print Assumptions C13_ends_semi_meaning.
+
+Theorem C13_ends_semi_blank_line : forall s, all_blank s = true -> ends_semi s = false.
+Proof. exact ends_semi_blank. Qed.
+Print Assumptions C13_ends_semi_blank_line.
+
+(** hence at most one tree per physical line, whatever the parser: a file with more trees
+    than lines cannot be delivered completely, and no error is reported for the others *)
+Theorem C13_newick_every_tree_delivered_refuted :
+  forall (np : string -> utree + string) lines,
+    n_trees (items_of (read_multi np (whole_lines lines))) <= length lines.
+Proof. exact read_multi_one_tree_per_line. Qed.
+Print Assumptions C13_newick_every_tree_delivered_refuted.
+
+(** * Newick -> Nexus -> parse, general statements (token level; the Newick writer [w] and
+    parser [np] are arbitrary).  [final_map l []] is the writer's taxon map, [labels_of l]
+    the sorted TAXLABELS, [label_ok]: one Nexus token, identifier or number (so: no blank,
+    bracket, '=', ';', ',' and not a keyword), [newick_ok s]: s ends with ';' and splits at its
+    commas into such words. *)
+Theorem C13_nexus_round_trip :
+  forall (w : utree -> string) (np : string -> utree + string) (l : list (nat * utree)) (p : utree -> utree),
+    (Z.of_nat (length (final_map l [])) < two63)%Z ->
+    Forall label_ok (labels_of l) ->
+    Forall (fun it => tree_ok w np (labels_of l) p (snd it)) l ->
+    nexus_parse np (write_nexus w false l) =
+    Nexus.POk (mkDoc (map (fun it => ("tree" ++ itoa (fst it), p (snd it))) l) false).
+Proof. exact nexus_round_trip_plain. Qed.
+Print Assumptions C13_nexus_round_trip.
+
+(** with the Newick writer and parser of C01: every tree of the list comes back, in order,
+    under the names tree<id>, with the same rose (shape, child order, names, lengths,
+    supports, comments) *)
+Theorem C13_nexus_round_trip_newick :
+  forall (fmt : Q -> string) (numeric : string -> bool) (parse_num : string -> option Q) (numok : Q -> bool),
+    strconv_ok fmt numeric parse_num numok ->
+    forall (l : list (nat * utree)),
+      (Z.of_nat (length (final_map l [])) < two63)%Z ->
+      Forall label_ok (labels_of l) ->
+      Forall (fun it => nexus_tree_ok fmt numeric parse_num numok (labels_of l) (snd it)) l ->
+      exists ts',
+        nexus_parse (np_newick numeric parse_num) (write_nexus (Newick.write fmt) false l) =
+        Nexus.POk (mkDoc (combine (map (fun it => "tree" ++ itoa (fst it)) l) ts') false) /\
+        Forall2 (fun it t' => rose_eqb (rose_of t') (rose_of (snd it)) = true) l ts'.
+Proof. exact nexus_round_trip_c01. Qed.
+Print Assumptions C13_nexus_round_trip_newick.
+
+(** the hypotheses are satisfiable (executable strconv model of C01, two trees with lengths
+    and a support on the taxa a, b, c) *)
+Example C13_nexus_round_trip_inhabited :
+  (Z.of_nat (length (final_map ex_list [])) < two63)%Z /\
+  Forall label_ok (labels_of ex_list) /\
+  Forall (fun it => nexus_tree_ok fmt_go numericC parse_numC numokC (labels_of ex_list) (snd it)) ex_list.
+Proof. exact (conj ex_bound (conj ex_labels ex_trees)). Qed.
+Print Assumptions C13_nexus_round_trip_inhabited.
+
+(** with a TRANSLATE table: the parser reads back the table the writer printed
+    ([tr_table (pairs_of l) []]: index -> label) and the Newick strings of the trees as
+    printed ([rendered [] l]: tips renamed to indices); [p] is what the Newick parser reads,
+    [q] what Tree.Rename with that table makes of it *)
+Theorem C13_nexus_round_trip_translate :
+  forall (w : utree -> string) (np : string -> utree + string) (l : list (nat * utree)) (p q : utree -> utree),
+    (Z.of_nat (length (final_map l [])) < two63)%Z ->
+    Forall label_ok (labels_of l) ->
+    Forall (fun it => tree_ok_tr w np (labels_of l) (tr_table (pairs_of l) []) p q (snd it)) (rendered [] l) ->
+    nexus_parse np (write_nexus w true l) =
+    Nexus.POk (mkDoc (map (fun it => ("tree" ++ itoa (fst it), q (snd it))) (rendered [] l)) false).
+Proof. exact nexus_round_trip_translate. Qed.
+Print Assumptions C13_nexus_round_trip_translate.
+
+(** * first tree = head of the iteration, Newick stream (the fourth format): for a file whose
+    first line is the writer's text of a tree inside C01's quantifier, followed by a line
+    break and anything, the single-tree reader (the parser applied to the whole file: it
+    stops at the ';' that ends the first tree) and the first record of the multi-tree reader
+    deliver the same tree *)
+Theorem C13_newick_first_is_head :
+  forall (fmt : Q -> string) (numeric : string -> bool) (parse_num : string -> option Q) (numok : Q -> bool),
+    strconv_ok fmt numeric parse_num numok ->
+    forall t lines rest,
+      wfN numeric numok t = true ->
+      first_tree_newick (np_nw numeric parse_num) (Newick.write fmt t ++ String "010" rest) =
+      inl (canon_root fmt parse_num t) /\
+      head_multi (read_multi (np_nw numeric parse_num) (whole_lines (Newick.write fmt t :: lines))) =
+      Some (ITree 0 (canon_root fmt parse_num t)).
+Proof. exact newick_first_is_head. Qed.
+Print Assumptions C13_newick_first_is_head.
+
+(** the single-tree Newick parser does not read behind the ';' of a written tree *)
+Theorem C13_newick_parse_stops_at_semicolon :
+  forall (fmt : Q -> string) (numeric : string -> bool) (parse_num : string -> option Q) (numok : Q -> bool),
+    strconv_ok fmt numeric parse_num numok ->
+    forall t k, wfN numeric numok t = true ->
+      Newick.parse numeric parse_num (Newick.write fmt t ++ k) = Newick.POk (canon_root fmt parse_num t).
+Proof. exact parse_write_k. Qed.
+Print Assumptions C13_newick_parse_stops_at_semicolon.
+
+(** * the TRANSLATE table and Tree.Rename.  The table read back is the inverse of the writer's
+    taxon map on every declared label ... *)
+Theorem C13_translate_table_inverse : forall (l : list (nat * utree)) n,
+    In n (labels_of l) ->
+    exists k, assoc_get n (final_map l []) = Some (itoa k) /\
+              assoc_get (itoa k) (tr_table (pairs_of l) []) = Some n.
+Proof. exact translate_table_inverse. Qed.
+Print Assumptions C13_translate_table_inverse.
+
+(** ... renaming with an inverse table undoes a renaming ([inverse_on m tbl n]: the name is
+    empty, or m sends it to a non-empty name that tbl sends back, or neither table knows it) ... *)
+Theorem C13_rename_inverse : forall m tbl t,
+    Forall (inverse_on m tbl) (map uname (nodes t)) ->
+    rename_nodes tbl (rename_nodes m t) = t.
+Proof. exact rename_nodes_inverse. Qed.
+Print Assumptions C13_rename_inverse.
+
+(** ... and respects the rose: if the Newick layer gives back a tree [u] with the rose of the
+    printed (renamed) tree, Rename with the inverse table gives a tree with the rose of the
+    original *)
+Theorem C13_translate_keeps_rose : forall m tbl t u,
+    rose_eqb (rose_of u) (rose_of (rename_nodes m t)) = true ->
+    Forall (inverse_on m tbl) (map uname (nodes t)) ->
+    rose_eqb (rose_of (rename_nodes tbl u)) (rose_of t) = true.
+Proof. exact translate_rose. Qed.
+Print Assumptions C13_translate_keeps_rose.
